@@ -136,3 +136,16 @@ Theorem C09_request_signal_is_the_sources :
   forall vr err stay, GenDecide.gen_requestError vr err stay = Node.request_error vr err stay.
 Proof. exact DecideEq.request_error_is_source. Qed.
 Print Assumptions C09_request_signal_is_the_sources.
+
+From DT Require GenHandlers HandlerEq.
+
+(* the programs of Node.v that close a channel (by the user: transport first, then the Cancel event, then the
+   cancel message; with an error: transport, cancel message, Error event) run, for every interpreter state,
+   exactly like the programs regenerated from impl/impl.go CloseDataTransferChannel /
+   CloseDataTransferChannelWithError on every run, and the cancel message's kind by role is the source's *)
+Theorem C09_close_handlers_are_the_sources : forall k,
+  HandlerEq.runs_like (HandlerEq.with_self (fun self => GenHandlers.gen_CloseDataTransferChannel self k)) (Node.close_channel k) /\
+  HandlerEq.runs_like (HandlerEq.with_self (fun self => GenHandlers.gen_CloseDataTransferChannelWithError self k)) (Node.close_with_error k) /\
+  (forall self, GenHandlers.gen_cancelMessage self k = Node.cancel_message self k).
+Proof. exact HandlerEq.close_handlers_are_source. Qed.
+Print Assumptions C09_close_handlers_are_the_sources.
